@@ -1,6 +1,46 @@
-"""Shared pieces used by every property driver: Result, scratch directory."""
+"""Shared pieces used by every property driver: Result, scratch directory, call watchdog."""
 import os
+import signal
 import tempfile
+
+
+class LibraryTimeout(Exception):
+    """A single call into the library under test has been running for more than the watchdog interval."""
+
+
+_last_tick = [None]
+
+
+def _library_frame(frame):
+    """Outermost frame of the current stack that executes code of the repository under test."""
+    repo = os.environ.get('VT_REPO', '/repo')
+    found = None
+    while frame is not None:
+        fn = frame.f_code.co_filename
+        if fn.startswith(repo + os.sep):
+            found = frame
+        frame = frame.f_back
+    return found
+
+
+def _on_tick(signum, frame):
+    lib = _library_frame(frame)
+    key = None if lib is None else (id(lib), lib.f_code.co_name)
+    if key is not None and key == _last_tick[0]:
+        _last_tick[0] = None
+        raise LibraryTimeout('%s() of the library has been running for more than %s s (does not terminate?)'
+                             % (lib.f_code.co_name, os.environ.get('VT_CALL_TIMEOUT') or 60))
+    _last_tick[0] = key
+
+
+def install_call_watchdog():
+    """Worker processes: abort a library call that spans two consecutive timer ticks."""
+    interval = float(os.environ.get('VT_CALL_TIMEOUT') or 60)
+    try:
+        signal.signal(signal.SIGALRM, _on_tick)
+        signal.setitimer(signal.ITIMER_REAL, interval, interval)
+    except (ValueError, AttributeError):
+        pass
 
 
 class StopChunk(Exception):
@@ -32,6 +72,12 @@ class Result(object):
             self.samples.append(obj)
 
     def violation(self, kind, where, case, detail, what=None):
+        if 'LibraryTimeout' in str(detail):
+            self.extra['library_timeouts'] = self.extra.get('library_timeouts', 0) + 1
+            if self.extra['library_timeouts'] >= 3:
+                if len(self.violations) < 400:
+                    self.violations.append({'kind': kind, 'where': where, 'case': case, 'detail': detail, 'what': what or kind})
+                raise StopChunk(self)       # every further case would wait for the watchdog again
         if len(self.violations) < 400:
             self.violations.append({'kind': kind, 'where': where, 'case': case,
                                     'detail': detail, 'what': what or kind})
